@@ -131,6 +131,13 @@ const ASCII_CHARS: &[u8] = b"abcdefghijklmnopqrstuvwxyzABCDEFGHIJKLMNOPQRSTUVWXY
 /// this ensures generation never fails due to insufficient entropy.
 impl<'a> EntropySource for GenerationSource<'a> {
     fn choose_index(&mut self, max: usize) -> usize {
+        #[cfg(feature = "verif-hooks")]
+        if crate::verif::enter_draw() {
+            let __before = self.verif_remaining();
+            let __r = self.choose_index(max);
+            crate::verif::draw_done("choose_index", max as u64, 0, __r as u64, __before, self.verif_remaining());
+            return __r;
+        }
         if max == 0 {
             return 0;
         }
@@ -142,6 +149,13 @@ impl<'a> EntropySource for GenerationSource<'a> {
     }
 
     fn gen_bool(&mut self) -> bool {
+        #[cfg(feature = "verif-hooks")]
+        if crate::verif::enter_draw() {
+            let __before = self.verif_remaining();
+            let __r = self.gen_bool();
+            crate::verif::draw_done("gen_bool", 0, 0, __r as u64, __before, self.verif_remaining());
+            return __r;
+        }
         match self {
             GenerationSource::Rand(rng) => rng.random(),
             // fallback to false if fuzzer bytes exhausted
@@ -150,6 +164,13 @@ impl<'a> EntropySource for GenerationSource<'a> {
     }
 
     fn gen_u8(&mut self) -> u8 {
+        #[cfg(feature = "verif-hooks")]
+        if crate::verif::enter_draw() {
+            let __before = self.verif_remaining();
+            let __r = self.gen_u8();
+            crate::verif::draw_done("gen_u8", 0, 0, __r as u64, __before, self.verif_remaining());
+            return __r;
+        }
         match self {
             GenerationSource::Rand(rng) => rng.random(),
             GenerationSource::Arbitrary(u) => u.arbitrary().unwrap_or(0),
@@ -157,6 +178,13 @@ impl<'a> EntropySource for GenerationSource<'a> {
     }
 
     fn gen_u16(&mut self) -> u16 {
+        #[cfg(feature = "verif-hooks")]
+        if crate::verif::enter_draw() {
+            let __before = self.verif_remaining();
+            let __r = self.gen_u16();
+            crate::verif::draw_done("gen_u16", 0, 0, __r as u64, __before, self.verif_remaining());
+            return __r;
+        }
         match self {
             GenerationSource::Rand(rng) => rng.random(),
             GenerationSource::Arbitrary(u) => u.arbitrary().unwrap_or(0),
@@ -164,6 +192,13 @@ impl<'a> EntropySource for GenerationSource<'a> {
     }
 
     fn gen_u32(&mut self) -> u32 {
+        #[cfg(feature = "verif-hooks")]
+        if crate::verif::enter_draw() {
+            let __before = self.verif_remaining();
+            let __r = self.gen_u32();
+            crate::verif::draw_done("gen_u32", 0, 0, __r as u64, __before, self.verif_remaining());
+            return __r;
+        }
         match self {
             GenerationSource::Rand(rng) => rng.random(),
             GenerationSource::Arbitrary(u) => u.arbitrary().unwrap_or(0),
@@ -171,6 +206,13 @@ impl<'a> EntropySource for GenerationSource<'a> {
     }
 
     fn gen_i32(&mut self) -> i32 {
+        #[cfg(feature = "verif-hooks")]
+        if crate::verif::enter_draw() {
+            let __before = self.verif_remaining();
+            let __r = self.gen_i32();
+            crate::verif::draw_done("gen_i32", 0, 0, __r as i64 as u64, __before, self.verif_remaining());
+            return __r;
+        }
         match self {
             GenerationSource::Rand(rng) => rng.random(),
             GenerationSource::Arbitrary(u) => u.arbitrary().unwrap_or(0),
@@ -178,6 +220,13 @@ impl<'a> EntropySource for GenerationSource<'a> {
     }
 
     fn gen_i64(&mut self) -> i64 {
+        #[cfg(feature = "verif-hooks")]
+        if crate::verif::enter_draw() {
+            let __before = self.verif_remaining();
+            let __r = self.gen_i64();
+            crate::verif::draw_done("gen_i64", 0, 0, __r as u64, __before, self.verif_remaining());
+            return __r;
+        }
         match self {
             GenerationSource::Rand(rng) => rng.random(),
             GenerationSource::Arbitrary(u) => u.arbitrary().unwrap_or(0),
@@ -185,6 +234,13 @@ impl<'a> EntropySource for GenerationSource<'a> {
     }
 
     fn gen_f64(&mut self) -> f64 {
+        #[cfg(feature = "verif-hooks")]
+        if crate::verif::enter_draw() {
+            let __before = self.verif_remaining();
+            let __r = self.gen_f64();
+            crate::verif::draw_done("gen_f64", 0, 0, f64::to_bits(__r), __before, self.verif_remaining());
+            return __r;
+        }
         match self {
             GenerationSource::Rand(rng) => rng.random(),
             GenerationSource::Arbitrary(u) => {
@@ -195,6 +251,13 @@ impl<'a> EntropySource for GenerationSource<'a> {
     }
 
     fn gen_range(&mut self, min: usize, max: usize) -> usize {
+        #[cfg(feature = "verif-hooks")]
+        if crate::verif::enter_draw() {
+            let __before = self.verif_remaining();
+            let __r = self.gen_range(min, max);
+            crate::verif::draw_done("gen_range", min as u64, max as u64, __r as u64, __before, self.verif_remaining());
+            return __r;
+        }
         if min >= max {
             return min;
         }
@@ -208,6 +271,13 @@ impl<'a> EntropySource for GenerationSource<'a> {
     }
 
     fn gen_bytes(&mut self, len: usize) -> Vec<u8> {
+        #[cfg(feature = "verif-hooks")]
+        if crate::verif::enter_draw() {
+            let __before = self.verif_remaining();
+            let __r = self.gen_bytes(len);
+            crate::verif::draw_done("gen_bytes", len as u64, 0, __r.len() as u64, __before, self.verif_remaining());
+            return __r;
+        }
         match self {
             GenerationSource::Rand(rng) => {
                 let mut bytes = vec![0u8; len];
@@ -223,8 +293,26 @@ impl<'a> EntropySource for GenerationSource<'a> {
     }
 
     fn gen_ascii_char(&mut self) -> char {
+        #[cfg(feature = "verif-hooks")]
+        if crate::verif::enter_draw() {
+            let __before = self.verif_remaining();
+            let __r = self.gen_ascii_char();
+            crate::verif::draw_done("gen_ascii_char", 0, 0, __r as u64, __before, self.verif_remaining());
+            return __r;
+        }
         // choose random index into ASCII_CHARS, convert byte to char
         let idx = self.choose_index(ASCII_CHARS.len());
         ASCII_CHARS[idx] as char
+    }
+}
+
+#[cfg(feature = "verif-hooks")]
+impl<'a> GenerationSource<'a> {
+    /// unread fuzzer bytes (0 in PRNG mode); verification hook only
+    fn verif_remaining(&self) -> usize {
+        match self {
+            GenerationSource::Rand(_) => 0,
+            GenerationSource::Arbitrary(u) => u.len(),
+        }
     }
 }
